@@ -35,6 +35,7 @@ PROPERTY_MODULES = {
     'C30': ['contracts.c30_cs_safe'],
     'C25': ['contracts.c25_ks'],
     'C12': ['contracts.c12_approx'],
+    'C08': ['contracts.c08_scaling'],
 }
 
 # modules whose contracts may be used as callee contracts by any property
@@ -64,6 +65,7 @@ PROPERTY_ASSUMPTIONS = {
             'assumed: _iter_get_norm returns NaN or a value >= 0; _single_iteration and _run_apply neither raise nor modify solver control state'],
 }
 GAPS = {
+    'C08': ['System/Group._compute_root_scale_factors (how a0, a1, factor, offset are derived from metadata)', 'System._scaled_context_all / _unscaled_context around every user callback', 'DefaultVector._allocate_scaling_data sharing between linear and nonlinear vectors', 'converged outputs and total derivatives of whole models under different ref/ref0/res_ref (solver numerics)'],
     'C12': ['truncation error for non-polynomial functions', 'step_calc=rel_element and directional options', 'compute_approx_col_iter generator (save / finally restore of FD mode)', 'colored approximation equals uncolored (C03)', 'ComplexStep: outputs/residuals after a point, nested complex-step fallback to FD', 'approximated totals'],
     'C25': ['KSfunction.compute/derivatives and KSComp.compute/compute_partials: bounded exhaustive tier only', 'exact gradients of jax ks_max/ks_min (jax AD)', 'exp overflow for huge rho*(g-m) is excluded by the shift but floats are treated as reals'],
     'C30': ['derivatives of the jax smooth helpers (jax AD)', 'second-order effects of a finite complex step', 'n-d arrays / axis argument of cs_safe.norm'],
